@@ -317,7 +317,7 @@ def _e2e(raw, expected, req_list, require_called, own, handler):
 
     cfg = {"raw": bytes(raw).hex(), "req_list": req_list, "require_called": bool(require_called), "own": own,
            "handler": handler}
-    runner = [shutil.which("isopy")] if shutil.which("isopy") else [sys.executable]
+    from vlib.e2e import runner as _runner; runner = _runner()
     env = dict(os.environ, PYTHONPATH=vlib.REPO)
     p = subprocess.run(runner + ["-c", _E2E_SCRIPT, json.dumps(cfg)], capture_output=True, text=True, timeout=120, env=env)
     i = p.stdout.rfind("@@E2E@@")
